@@ -22,6 +22,9 @@ import EngineModel.Spec.Txn
 import EngineModel.Spec.Observe
 import Proofs.Txn
 import Properties.C13
+import EngineModel.Api.CratesV1
+import EngineModel.Db.V2Crates
+import EngineModel.TracksV2.Lens
 
 namespace EngineModel.Properties.C10
 open EngineModel.Spec.Txn EngineModel.Spec.Observe EngineModel.Proofs.Txn
@@ -82,6 +85,125 @@ theorem C10_open_transaction_is_lost :
     observe (fun db _ => db) c ⟨1⟩ = 1 ∧ observe (fun db _ => db) c.reopen ⟨1⟩ = 0 := by
   decide
 
+/-- What is observed is what is durable: after a settled history the database
+the connection sees is the committed one. -/
+theorem C10_durable_is_visible (ks : List (Call α)) (hs : ∀ k ∈ ks, k.settles) (db : α) :
+    (runCalls (Conn.idle db) ks).view = (runCalls (Conn.idle db) ks).committed := by
+  simp [Conn.view, C10_history_settles ks hs db]
+
+/-- Releasing every handle and loading the library again after *each* call of a
+settled history reaches the very connection state of the history run in one
+session: reopening is invisible to everything that follows (the tie compares
+the two runs at every prefix). -/
+theorem C10_reopen_invisible (ks : List (Call α)) (hs : ∀ k ∈ ks, k.settles) (db : α) :
+    runCallsReopen (Conn.idle db) ks = runCalls (Conn.idle db) ks := by
+  suffices h : ∀ c : Conn α, c.working = none → runCallsReopen c ks = runCalls c ks from h _ rfl
+  induction ks with
+  | nil => intro c _; rfl
+  | cons k ks ih =>
+    intro c hc
+    simp only [runCallsReopen, runCalls]
+    have hw := call_settles k (hs k List.mem_cons_self) c hc
+    rw [(C10_reopen_idle _ hw).1]
+    exact ih (fun k' hk' => hs k' (List.mem_cons_of_mem _ hk')) _ hw
+
+/-- The quantifier of the property — closing at **every prefix** of the
+history: for each `n`, the observation through any handle after the first `n`
+calls is the same (a) before closing, (b) after closing and loading, and (c) in
+the run that was closed and loaded after every single call. -/
+theorem C10_every_prefix (ks : List (Call α)) (hs : ∀ k ∈ ks, k.settles) (db : α)
+    (q : α → Int → β) (h : Handle) (n : Nat) :
+    observe q (runCalls (Conn.idle db) (ks.take n)).reopen h = observe q (runCalls (Conn.idle db) (ks.take n)) h ∧
+    observe q (runCallsReopen (Conn.idle db) (ks.take n)) h = observe q (runCalls (Conn.idle db) (ks.take n)) h := by
+  have hs' : ∀ k ∈ ks.take n, k.settles := fun k hk => hs k (List.mem_of_mem_take hk)
+  exact ⟨C10_reopen_observes _ hs' db q h, by rw [C10_reopen_invisible _ hs' db]⟩
+
+/-- Link to C14: a call whose statement kinds the C14 monitor accepts
+(`atomicShape`) settles.  So on a library where every public mutating call has
+an atomic shape — what C14's tie establishes call by call — every history is
+settled and `C10_reopen_observes` applies, faults included. -/
+theorem C10_atomic_calls_settle (k : Call α) (h : atomicShape (k.cmds.map Cmd.kind) = true) : k.settles := by
+  simp only [atomicShape] at h
+  split at h
+  · rename_i s hs
+    have := shapeRun_closedRun _ _ _ hs
+    simp only [ShapeSt.init] at this
+    simp only [Bool.not_eq_eq_eq_not, Bool.not_true] at h
+    simp [Call.settles, closedShape, this, h]
+  · cases h
+
+/-! ### (i′) the concrete API models behind the connection
+
+`Api.CratesV1`, `Db.V2` (crates 2.x) and `TracksV2.Db` model every public call
+as a function of the stored tables and ids; seen from the connection a call
+makes the model's resulting state durable (`apiCall`).  Then every observation
+the concrete models define — after the history, after closing and loading, or
+after closing and loading at every prefix — is the observation of the model's
+own run. -/
+
+/-- A history of calls of a deterministic API model is settled and reaches the
+model's own fold. -/
+theorem C10_api_model {ω : Type} (step : α → ω → α) (ops : List ω) (db : α) :
+    (∀ k ∈ ops.map (apiCall step), k.settles) ∧
+    runCalls (Conn.idle db) (ops.map (apiCall step)) = Conn.idle (ops.foldl step db) := by
+  refine ⟨?_, ?_⟩
+  · intro k hk
+    obtain ⟨op, _, rfl⟩ := List.mem_map.1 hk
+    simp [Call.settles, apiCall, closedShape, closedRun, closedStep, Cmd.kind]
+  · induction ops generalizing db with
+    | nil => rfl
+    | cons op ops ih =>
+      simp only [List.map_cons, runCalls, List.foldl_cons]
+      have : (exec (apiCall step op).fault (apiCall step op).auto (apiCall step op).cmds 0 0 (Conn.idle db)).conn
+          = Conn.idle (step db op) := by
+        simp [apiCall, exec, faultable, Cmd.kind, stepStmt, Conn.idle, Outcome.cons]
+      rw [this]
+      exact ih _
+
+/-- … hence closing and loading — once, or after every call — shows the state of
+the model's own run, at every prefix. -/
+theorem C10_api_model_reopen {ω : Type} (step : α → ω → α) (ops : List ω) (db : α) (n : Nat) :
+    (runCalls (Conn.idle db) ((ops.take n).map (apiCall step))).reopen.view = (ops.take n).foldl step db ∧
+    (runCallsReopen (Conn.idle db) ((ops.take n).map (apiCall step))).view = (ops.take n).foldl step db := by
+  obtain ⟨hs, hr⟩ := C10_api_model step (ops.take n) db
+  refine ⟨?_, ?_⟩
+  · rw [hr]; rfl
+  · rw [C10_reopen_invisible _ hs db, hr]; rfl
+
+open EngineModel.Api in
+/-- Schema-1.x crates and memberships (`Api.CratesV1`, every version): the full
+observation — every query of every crate / track handle held and every probe
+name — after closing and loading at every prefix is the model's own. -/
+theorem C10_crates_v1 (s : Schema) (ops : List CratesV1.Op) (db : CratesV1.Db)
+    (handles thandles : List CratesV1.Id) (names : List CratesV1.Name) (n : Nat) :
+    CratesV1.observe s (runCallsReopen (Conn.idle db)
+        ((ops.take n).map (apiCall fun d op => (CratesV1.step s d op).1))).view handles thandles names
+      = CratesV1.observe s (CratesV1.run s db (ops.take n)) handles thandles names := by
+  rw [(C10_api_model_reopen _ ops db n).2]
+  rfl
+
+theorem v2_run_foldl (ops : List Db.V2.Op) (d : Db.V2.Db) :
+    Db.V2.run d ops = ops.foldl (fun d op => (Db.V2.step d op).1) d := by
+  induction ops generalizing d with
+  | nil => rfl
+  | cons op ops ih => simp [Db.V2.run, ih]
+
+/-- Schema-2.x crates and memberships (`Db.V2`): the same, for every query of
+the model (`crates`, `root_crates`, `children`, `descendants`, `parent`, `name`,
+`tracks`, …) applied through any function `q` of the stored tables. -/
+theorem C10_crates_v2 {β : Type} (ops : List Db.V2.Op) (db : Db.V2.Db) (q : Db.V2.Db → β) (n : Nat) :
+    q (runCallsReopen (Conn.idle db) ((ops.take n).map (apiCall fun d op => (Db.V2.step d op).1))).view
+      = q (Db.V2.run db (ops.take n)) := by
+  rw [(C10_api_model_reopen _ ops db n).2, v2_run_foldl]
+
+/-- Schema-2.x tracks (`TracksV2.Db`): after any history of setter calls, closed
+and loaded after each, `snapshot()` of any track is the one of the model's run. -/
+theorem C10_tracks_v2 (o : TracksV2.FOps) (calls : List (Nat × TracksV2.Setter)) (db : TracksV2.Db) (id n : Nat) :
+    TracksV2.Db.snapshot o (runCallsReopen (Conn.idle db)
+        ((calls.take n).map (apiCall fun d c => (TracksV2.Db.set o d c.1 c.2).1))).view id
+      = TracksV2.Db.snapshot o ((calls.take n).foldl (fun d c => (TracksV2.Db.set o d c.1 c.2).1) db) id := by
+  rw [(C10_api_model_reopen _ calls db n).2]
+
 /-! ### (ii) reload -/
 
 /-- Re-export of `C13_reload`: what a creator stamps is detected as that schema. -/
@@ -129,5 +251,25 @@ example : (runCalls (Conn.idle (0 : Nat))
     [⟨[.write (fun n => some (n + 1))], none, false⟩,
      ⟨[.begin, .write (fun n => some (n + 10)), .commit], some 1, false⟩,
      ⟨[.begin, .write (fun n => some (n + 100)), .commit], none, true⟩]) = Conn.idle 101 := by rfl
+
+/-- reopening after every call of a settled history (one call fails, one runs in a scope) is invisible -/
+example : runCallsReopen (Conn.idle (0 : Nat))
+    [⟨[.write (fun n => some (n + 1))], none, false⟩,
+     ⟨[.begin, .write (fun n => some (n + 10)), .commit], some 1, false⟩,
+     ⟨[.begin, .write (fun n => some (n + 100)), .commit], none, true⟩] = Conn.idle 101 := by rfl
+/-- … and it is visible when a call does not settle: the second call's write joins the transaction the first
+left open when the session is kept, and is all that survives when the library is closed in between -/
+example : (runCalls (Conn.idle (0 : Nat))
+      [⟨[.begin, .write (fun n => some (n + 1))], none, false⟩, ⟨[.write (fun n => some (n + 10)), .commit], none, false⟩]).view = 11 ∧
+    (runCallsReopen (Conn.idle (0 : Nat))
+      [⟨[.begin, .write (fun n => some (n + 1))], none, false⟩, ⟨[.write (fun n => some (n + 10)), .commit], none, false⟩]).view = 10 := by
+  decide
+/-- the C14 monitor's shapes settle -/
+example : atomicShape ((⟨[.read, .begin, .write (fun n => some (n + 1)), .write (fun n => some (n + 2)), .commit], none, false⟩ :
+    Call Nat).cmds.map Cmd.kind) = true := by decide
+/-- concrete models: a 1.x history whose observation after reopening at every prefix is not trivial -/
+example : EngineModel.Api.CratesV1.crateTracks .schema_1_18_0_os
+    (EngineModel.Api.CratesV1.run .schema_1_18_0_os EngineModel.Api.CratesV1.Db.empty
+      [.createRoot [65], .createSub 1 [66], .createTrack, .addTrack 2 1]) 2 = [1] := by decide +kernel
 
 end EngineModel.Properties.C10
